@@ -169,7 +169,7 @@ class SwapState:
         return Sym(self.pj(S.z(k)))
 
 
-@contract("C08", "swap", native=False)
+@contract("C08", "swap", native=False, replay_with="tempering_native")
 def swap(vc):
     st = SwapState(vc)
     N = st.N
@@ -220,7 +220,7 @@ class WorkerConn:
         self.sent.append(x)
 
 
-@contract("C08", "worker_update_position", native=False)
+@contract("C08", "worker_update_position", native=False, replay_with="tempering_native")
 def worker_update_position(vc):
     """a chain that is told to take over a point x with untempered log-density L = F(x) ends with x as its
     current point and L re-expressed at ITS OWN temperature as the matching log-probability"""
@@ -245,7 +245,7 @@ def worker_update_position(vc):
     vc.ensures("nothing_sent_back", len(conn.sent) == 0)
 
 
-@contract("C08", "worker_send_position", native=False)
+@contract("C08", "worker_send_position", native=False, replay_with="tempering_native")
 def worker_send_position(vc):
     from contracts.mcmc_hmc import HmcState
     st = HmcState(vc, False)
@@ -280,7 +280,7 @@ class StepCounter(LoopSpec):
         return S.cmp("==", self.box["total"], S.add(self.entry, S.mul(k, self.per(fr))))
 
 
-@contract("C08", "advance_step_count", native=False)
+@contract("C08", "advance_step_count", native=False, replay_with="tempering_native")
 def advance_step_count(vc):
     n = vc.int("n", lo=0)
     si = vc.choice("swap_interval", [1, 2, 3, 10, 64])      # proved per listed value (keeps the arithmetic linear)
@@ -313,7 +313,7 @@ def _local(fr, func, role):
 
 
 # ---- fixed communication order on the parent side (structural contract) ------------------------------------------------
-@contract("C08", "parent_blocking_fixed_order", native=False)
+@contract("C08", "parent_blocking_fixed_order", native=False, replay_with="tempering_native")
 def parent_blocking_fixed_order(vc):
     """every receive on the parent side is a blocking recv() on a pipe taken from a loop over self.connections in
     index order, and the parent never polls, waits on several pipes or shares memory: with deterministic workers
